@@ -7,7 +7,7 @@
    (how to edit it when a repair lands or is reverted: /verif/notes/C01.md, section "Switching"). *)
 From Coq Require Import List NArith Bool String.
 From YVGen Require Import GcTables.
-From YV Require Import Heap HeapTablesRef Collect Mutator CollectProofs MutatorProofs CollectExt PinnedC01.
+From YV Require Import Heap HeapTablesRef Collect Mutator CollectProofs MutatorProofs CollectExt PinnedC01 CollectShape CollectShapeProofs.
 (* CollectRun (runner of the snapshot correspondence) is imported so that `make props/C01.vo` keeps it up to date *)
 From YV Require CollectRun.
 Import ListNotations.
@@ -199,6 +199,53 @@ Proof.
            collect_exact_when_tables_agree marks_gen blackens_black_gen blackens_mark_gen h h' a C01_tables_agree).
 Qed.
 
+(* ---------- the collector ALGORITHM as read from memory.rs is the one Collect.v models (round 7) ----------
+   `collector_shape_gen` is regenerated from the bodies of GcBox::unmark/mark/blacken and Heap::collect/mark_roots/
+   trace_references/sweep.  Any early return, depth / size guard, wrapper around the recursive call, bounded loop or
+   changed colour in those bodies makes a field differ (and adds a `gen_unknown` entry naming the statement). *)
+Theorem C01_collector_shape : collector_shape_gen = collector_shape_ref.
+Proof. reflexivity. Qed.
+(* in particular: `mark` / `blacken` of a box call `self.data.mark()` / `.blacken()` unconditionally *)
+Theorem C01_collector_recursion_unguarded :
+  bf_forward (cs_mark collector_shape_gen) = true /\ bf_guarded (cs_mark collector_shape_gen) = false /\
+  bf_forward (cs_blacken collector_shape_gen) = true /\ bf_guarded (cs_blacken collector_shape_gen) = false.
+Proof. repeat split; reflexivity. Qed.
+(* the depth-annotated collector with no bound is Collect.v's collector, for the generated tables *)
+Theorem C01_collect_depth_unbounded : forall w sf pf h,
+  collect_with_d marks_gen blackens_black_gen blackens_mark_gen None None w sf pf h
+  = collect_with marks_gen blackens_black_gen blackens_mark_gen sf pf h.
+Proof. exact (collect_d_unbounded marks_gen blackens_black_gen blackens_mark_gen). Qed.
+(* why a guard there matters - Mechanism variants with a bound on the nesting depth (witness: a chain of nine vecs, limit 3):
+   both recursions capped and `blacken` already Black at its guard (the seeded change) reclaims reachable boxes ... *)
+Open Scope N_scope.
+Theorem C01_bounded_depth_refuted :
+  wf (chain_heap 8) /\ reach_marks marks_ref (chain_heap 8) 8 /\
+  survivors_opt marks_ref blackens_black_ref blackens_mark_ref (chain_heap 8) = Some [0; 1; 2; 3; 4; 5; 6; 7; 8] /\
+  survivors_opt_d marks_ref blackens_black_ref blackens_mark_ref (Some 3%nat) (Some 3%nat) LBlackNoChildren (chain_heap 8) = Some [0; 1; 2; 3].
+Proof. exact bounded_both_black_refuted. Qed.
+(* ... so does the sibling whose guard sits before the colour update ... *)
+Theorem C01_bounded_depth_skip_refuted :
+  reach_marks marks_ref (chain_heap 8) 8 /\
+  survivors_opt_d marks_ref blackens_black_ref blackens_mark_ref (Some 3%nat) (Some 3%nat) LSkip (chain_heap 8) = Some [0; 1; 2; 3; 4; 5].
+Proof. exact bounded_both_skip_refuted. Qed.
+(* ... with the seed's own constant: limit 1024, a chain of 1501 boxes, 1025 survive ... *)
+Theorem C01_bounded_depth_1024_refuted :
+  option_map (@List.length addr) (survivors_opt_d marks_ref blackens_black_ref blackens_mark_ref (Some 1024%nat) (Some 1024%nat) LBlackNoChildren (chain_heap 1500)) = Some 1025%nat /\
+  option_map (@List.length addr) (survivors_opt marks_ref blackens_black_ref blackens_mark_ref (chain_heap 1500)) = Some 1501%nat.
+Proof. exact seeded_limit_1024_refuted. Qed.
+(* ... while each cap ALONE keeps the whole chain (two cooperating sites), as does a cap that leaves the box Grey
+   (witness heaps only: the general statement is not proved) *)
+Theorem C01_bounded_depth_one_site_partial :
+  survivors_opt_d marks_ref blackens_black_ref blackens_mark_ref (Some 3%nat) None LBlackNoChildren (chain_heap 8) = Some [0; 1; 2; 3; 4; 5; 6; 7; 8] /\
+  survivors_opt_d marks_ref blackens_black_ref blackens_mark_ref None (Some 3%nat) LBlackNoChildren (chain_heap 8) = Some [0; 1; 2; 3; 4; 5; 6; 7; 8] /\
+  survivors_opt_d marks_ref blackens_black_ref blackens_mark_ref None (Some 3%nat) LSkip (chain_heap 8) = Some [0; 1; 2; 3; 4; 5; 6; 7; 8].
+Proof. exact bounded_one_site_partial. Qed.
+Theorem C01_bounded_depth_grey_partial :
+  survivors_opt_d marks_ref blackens_black_ref blackens_mark_ref (Some 3%nat) (Some 3%nat) LGrey (chain_heap 8) = Some [0; 1; 2; 3; 4; 5; 6; 7; 8] /\
+  survivors_opt_d marks_ref blackens_black_ref blackens_mark_ref (Some 1%nat) (Some 1%nat) LGrey (chain_heap 8) = Some [0; 1; 2; 3; 4; 5; 6; 7; 8].
+Proof. exact bounded_grey_partial. Qed.
+Close Scope N_scope.
+
 Print Assumptions C01_translator_complete.
 Print Assumptions C01_holds_gen_is_ref.
 Print Assumptions C01_marks_ref_kept.
@@ -213,3 +260,11 @@ Print Assumptions C01_collect_retains_reach.
 Print Assumptions C01_collect_closed.
 Print Assumptions C01_collect_only_reach.
 Print Assumptions C01_collect_exact.
+Print Assumptions C01_collector_shape.
+Print Assumptions C01_collector_recursion_unguarded.
+Print Assumptions C01_collect_depth_unbounded.
+Print Assumptions C01_bounded_depth_refuted.
+Print Assumptions C01_bounded_depth_skip_refuted.
+Print Assumptions C01_bounded_depth_1024_refuted.
+Print Assumptions C01_bounded_depth_one_site_partial.
+Print Assumptions C01_bounded_depth_grey_partial.
